@@ -29,8 +29,11 @@ from vlib.minimysql.parser import UnsupportedSQL  # noqa: E402
 CALLERS = {
     "u1": dict(state="active", dev=0), "u2": dict(state="active", dev=0), "u3": dict(state="active", dev=0),
     "dev": dict(state="active", dev=1), "auth": dict(state="active", dev=0),
+    "ci": dict(state="active", dev=0),          # a service account other than auth (is_service_account, no privileges)
     "inactive": dict(state="inactive", dev=0), "idev": dict(state="inactive", dev=1), "anon": None,
 }
+
+SERVICE_ACCOUNTS = ("auth", "ci")
 
 # MySQL built-ins the engine lacks, as SQL functions (names used here contain no quotes / wildcards)
 PRELUDE = """
@@ -166,7 +169,7 @@ class World:
                 return None
             c = CALLERS[u]
             return {"id": 1, "state": c["state"], "username": u, "login_id": u, "namespace_name": "default",
-                    "is_developer": c["dev"], "is_service_account": u == "auth",
+                    "is_developer": c["dev"], "is_service_account": u in SERVICE_ACCOUNTS,
                     "hail_credentials_secret_name": f"{u}-gsa-key", "tokens_secret_name": f"{u}-tokens"}
 
         async def check_permission(request, permission):
